@@ -18,6 +18,7 @@ import (
 	"path/filepath"
 	"sort"
 	"strconv"
+	"strings"
 	"time"
 
 	"github.com/influxdata/influxdb/v2/pkg/durablequeue"
@@ -79,12 +80,12 @@ func bytesOf(v []int) []byte {
 	}
 	return r
 }
-func zs(v []int) string {
-	x := make([]int64, len(v))
+func zs(v []int) string { // plain numerals: the shard header opens Z_scope
+	xs := make([]string, len(v))
 	for i, c := range v {
-		x[i] = int64(c)
+		xs[i] = strconv.Itoa(c)
 	}
-	return vh.Zs(x)
+	return "[" + strings.Join(xs, ";") + "]"
 }
 func blocks(v [][]int) string {
 	xs := make([]string, len(v))
